@@ -477,11 +477,22 @@ def judge_traces(module: str, traces: list, *, chunk: int = 400, workers: int | 
     tids are 0-based indices into `traces`.
     """
     accepted, rejected, drift, results = set(), {}, {}, []
-    for base in range(0, len(traces), chunk):
-        part = traces[base: base + chunk]
+    # chunks by count AND by size: TLC parses the whole file for every behaviour it starts, so a few traces of
+    # hundreds of thousands of states must not share a file with hundreds of small ones
+    texts = [json.dumps(t) for t in traces]
+    bounds, start, size = [], 0, 0
+    for k, tx in enumerate(texts):
+        if k > start and (k - start >= chunk or size + len(tx) > 12_000_000):
+            bounds.append((start, k))
+            start, size = k, 0
+        size += len(tx)
+    if traces:
+        bounds.append((start, len(traces)))
+    for base, end in bounds:
+        part = traces[base:end]
         with Scratch("verif-trace-") as d:
             f = d / "traces.json"
-            f.write_text(json.dumps(part))
+            f.write_text("[" + ",".join(texts[base:end]) + "]")
             env = {"TRACE_FILE": str(f)}
             if extra_env:
                 env.update(extra_env)
